@@ -1,16 +1,24 @@
 //! C07 engine: MMR position arithmetic, roots and Merkle proofs against MMR.tla.
-use crate::common::*;
+use vcommon::*;
 use grin_core::core::hash::Hash;
 use grin_core::core::merkle_proof::MerkleProof;
 use grin_core::core::pmmr::{self, ReadablePMMR, VecBackend, PMMR};
-use rand::{Rng, SeedableRng, StdRng};
+use rand::rngs::StdRng;
+use rand::{Rng, SeedableRng};
 use serde_json::{json, Value};
 
-pub fn main(a: &[String]) -> i32 {
-	let args = Args::parse(a);
+fn main() {
+	quiet_panics();
+	let a: Vec<String> = std::env::args().skip(1).collect();
+	let args = Args::parse(&a);
+	let rc = run(&args);
+	std::process::exit(rc);
+}
+
+fn run(args: &Args) -> i32 {
 	match args.pos.get(0).map(|s| s.as_str()) {
-		Some("record") => record(&args),
-		Some("replay") => replay(&args),
+		Some("record") => record(args),
+		Some("replay") => replay(args),
 		_ => {
 			eprintln!("mmr record|replay");
 			2
